@@ -30,9 +30,10 @@ ALL_PROPS = ['C%02d' % i for i in range(1, 18)]
 # verifier's reach
 ORACLES = {'C01': ['solvency'], 'C02': ['settlement', 'solvency'], 'C03': ['match_eligibility'],
            'C04': ['solvency', 'exit_liveness'], 'C05': ['authorization', 'config_change'], 'C06': ['exit_liveness'], 'C07': ['admission'],
-           'C08': ['approver_tracks_size'], 'C09': ['solvency', 'settlement'], 'C10': ['mechanism'],
-           'C11': ['bid_consistency', 'ask_consistency'], 'C12': ['config_change'], 'C13': ['instantiate_coherence'],
-           'C14': ['migration'], 'C15': ['migration'], 'C16': ['queries'], 'C17': ['attributes']}
+           'C08': ['approver_tracks_size'], 'C09': ['solvency', 'settlement', 'admission'], 'C10': ['mechanism'],
+           'C11': ['bid_consistency', 'ask_consistency'], 'C12': ['config_change'], 'C13': ['instantiate_coherence', 'storage_format'],
+           'C14': ['migration', 'storage_format'], 'C15': ['migration', 'storage_format'], 'C16': ['queries', 'storage_format'],
+           'C17': ['attributes']}
 # properties with strict-mode (liveness) clauses
 CALLER_PROPS = {'contract::cancel_ask': ['C04', 'C06'], 'contract::reverse_ask': ['C04', 'C06'], 'contract::reverse_bid': ['C04', 'C06'],
                 'contract::execute_match': ['C02', 'C03'], 'contract::create_ask': ['C07'], 'contract::create_bid': ['C07'],
@@ -452,6 +453,12 @@ def downgrade_uncontracted(failures, report, lm, text):
             g['kind'] = 'uncontracted-callee'
             g['message'] = 'carries the inlined body of an un-contracted helper (R18); %s' % f['message']
             down.append(g)
+        elif gen.opaque_format_uses(body):
+            # (d) a string built by format! with a non-trivial format string is opaque to the verifier
+            g = dict(f)
+            g['kind'] = 'unannotated-closure'
+            g['message'] = 'builds a string with format!(%s ..), whose content the verifier does not see; %s' % (gen.opaque_format_uses(body)[0], f['message'])
+            down.append(g)
         elif cache[key]:
             g = dict(f)
             g['kind'] = 'unannotated-closure'
@@ -659,12 +666,15 @@ def finish(prop, tier, seed, results, t_start, extra=None):
             undecided_msgs.append('%s: vacuity guard generated no twin' % mode)
         if r['res']['json'] is None and not r['compile_errors']:
             undecided_msgs.append('%s: verifier produced no result (%s)' % (mode, r['res'].get('stderr_tail', '')[-300:]))
+        novel_by_fn = {f['qname']: f.get('novel_constructs') or [] for f in r['report']['functions']}
         for label, fs in failed_labels.items():
             base = label
             if base in known_labels:
                 known_hits.append((base, known_labels[base]))
                 continue
-            violations.append({'mode': mode, 'label': label, 'failures': fs, 'result': r})
+            fq = (fs[0].get('function') or '').split('#')[0]
+            violations.append({'mode': mode, 'label': label, 'failures': fs, 'result': r,
+                               'novel': novel_by_fn.get(fq, [])})
     # vacuity: zero obligations means the check decides nothing
     if obligations == 0:
         undecided_msgs.append('no labelled obligation carries property %s (vacuous check)' % prop)
@@ -688,10 +698,29 @@ def finish(prop, tier, seed, results, t_start, extra=None):
         'violations': len(violations),
     }
     real_hits = []
+    # golden-state histories (C13-C16): a realistic book in the raw byte format released versions wrote, queried, migrated,
+    # matched and cancelled with hand-computed expectations. They pin the persisted formats, which the proofs do not see
+    # (storage is modelled as typed values). A history that stops holding is a concrete violation on the real code.
+    if prop in ('C13', 'C14', 'C15', 'C16') and not os.environ.get('VERIF_NO_WITNESS'):
+        binp, err = replay_bin()
+        gold = sorted(x for x in os.listdir(os.path.join(VERIF, 'replay', 'histories')) if x.startswith('golden_state_') and x.endswith('.json'))
+        rows = []
+        for g in gold:
+            h = os.path.join(VERIF, 'replay', 'histories', g)
+            if binp is None:
+                rows.append({'history': g, 'ran': False, 'note': 'replay tool does not build: %s' % (err or '')[:200]})
+                continue
+            p = subprocess.run([binp, 'run', h, '--quiet'], capture_output=True, text=True, timeout=600)
+            rows.append({'history': g, 'exit': p.returncode, 'holds': p.returncode == 0})
+            if p.returncode == 3:
+                real_hits.append(h)
+        ev['coverage']['golden_state_histories'] = {'kind': 'fixed histories on the real code (raw released storage formats), not proof', 'runs': rows}
+        ev['violations'] = len(violations) + len(real_hits)
+        json.dump(ev, open(os.path.join(EVIDENCE_DIR, '%s.json' % prop), 'w'), indent=1)
     if extra:
         ev['coverage']['thorough'] = extra['report']
         undecided_msgs += extra['undecided']
-        real_hits = extra['real_hits']
+        real_hits = real_hits + extra['real_hits']
         ev['violations'] = len(violations) + len(real_hits)
     if undecided_msgs and not violations:
         ev['coverage']['undecided'] = undecided_msgs[:10]
@@ -724,16 +753,29 @@ def finish(prop, tier, seed, results, t_start, extra=None):
         rdir = os.path.join(VERIF, 'replays', prop)
         os.makedirs(rdir, exist_ok=True)
         seen = set()
+        witness_cache = {}
+        reported = 0
         for v in violations:
             if v['label'] in seen:
                 continue
             seen.add(v['label'])
             safe = re.sub(r'[^A-Za-z0-9_.#@-]', '_', v['label'])
             path = os.path.join(rdir, safe + '.json')
-            if os.environ.get('VERIF_NO_WITNESS'):
-                witness, note = None, 'witness search skipped'
-            else:
-                witness, note = witness_search(prop, seed or 1, rdir, 3000 if tier == 'quick' else 20000)
+            if 'w' not in witness_cache:
+                if os.environ.get('VERIF_NO_WITNESS'):
+                    witness_cache['w'] = (None, 'witness search skipped')
+                else:
+                    witness_cache['w'] = witness_search(prop, seed or 1, rdir, 3000 if tier == 'quick' else 20000)
+            witness, note = witness_cache['w']
+            if v.get('novel') and not witness:
+                # the failing function uses library constructs no function of the audited tree used: the obligation may
+                # fail for lack of a specification of those constructs rather than because the property is broken, and
+                # the bounded search on the real code found no failing history -> undecided, not a violation
+                undecided_msgs.append('%s: obligation %s is not discharged, but its function uses constructs the audited tree '
+                                      'did not (%s): the verifier may simply lack their specification; %s'
+                                      % (v['mode'], v['label'], '; '.join(v['novel'][:4]), note))
+                continue
+            reported += 1
             rep = {'property': prop, 'failed_obligation': v['label'], 'mode': v['mode'],
                    'function': v['failures'][0].get('function'),
                    'verifier_output': [f['rendered'] for f in v['failures']][:3],
@@ -742,7 +784,11 @@ def finish(prop, tier, seed, results, t_start, extra=None):
                    'how_to_replay': ('./check %s --replay %s' % (prop, path))}
             json.dump(rep, open(path, 'w'), indent=1)
             log('VIOLATION property=%s replay=%s%s' % (prop, path, '' if witness else ' no-failing-input-found'))
-        return 1
+        if reported:
+            return 1
+        ev['violations'] = 0
+        ev['coverage']['undecided'] = undecided_msgs[:10]
+        json.dump(ev, open(os.path.join(EVIDENCE_DIR, '%s.json' % prop), 'w'), indent=1)
     if undecided_msgs:
         # BOUNDED STAND-IN (never counted as proved): a function carrying a clause of this property is out of the verifier's
         # reach on this tree; explore the real code with the property's executable oracle. A failing history is a real
@@ -796,6 +842,15 @@ def finish(prop, tier, seed, results, t_start, extra=None):
 
 def do_replay(path):
     rep = json.load(open(path))
+    if 'steps' in rep and 'failed_obligation' not in rep:
+        # the replay file IS a history (golden-state histories, thorough-tier hits): run it on the real code
+        binp, err = replay_bin()
+        if binp is None:
+            log('replay tool does not build against the current tree: %s' % err)
+            return 2
+        p = subprocess.run([binp, 'run', path])
+        log('history %s on the real code: exit %d (0 = every recorded expectation holds, 3 = an expectation or oracle fails)' % (path, p.returncode))
+        return 0
     if rep.get('failed_obligation'):
         log('failed obligation: %s (%s mode) in %s' % (rep.get('failed_obligation'), rep.get('mode'), rep.get('function')))
     else:
